@@ -5,6 +5,7 @@ import (
 	"fmt"
 	"os"
 	"strings"
+	"sync"
 	"testing"
 	"time"
 
@@ -1462,4 +1463,229 @@ func intRange(n int) []int {
 		out[i] = i
 	}
 	return out
+}
+
+// storeChild answers like a small store: REQ -> its stored events (newest first), EOSE;
+// EVENT -> OK with a reason that names the child and the event; COUNT -> its count.
+type storeChild struct {
+	idx    int
+	stored []*mocrelay.Event
+	reject func(id string) bool
+	reason func(idx int, id string) string
+}
+
+func (c *storeChild) ServeNostr(ctx context.Context, send chan<- mocrelay.ServerMsg, recv <-chan mocrelay.ClientMsg) error {
+	out := func(m mocrelay.ServerMsg) bool {
+		select {
+		case send <- m:
+			return true
+		case <-ctx.Done():
+			return false
+		}
+	}
+	for {
+		select {
+		case <-ctx.Done():
+			return ctx.Err()
+		case m, ok := <-recv:
+			if !ok {
+				return mocrelay.ErrRecvClosed
+			}
+			switch x := m.(type) {
+			case *mocrelay.ClientReqMsg:
+				for _, e := range c.stored {
+					if !out(mocrelay.NewServerEventMsg(x.SubscriptionID, e)) {
+						return ctx.Err()
+					}
+				}
+				if !out(mocrelay.NewServerEOSEMsg(x.SubscriptionID)) {
+					return ctx.Err()
+				}
+			case *mocrelay.ClientEventMsg:
+				acc := c.reject == nil || !c.reject(x.Event.ID)
+				msg := ""
+				if !acc && c.reason != nil {
+					msg = c.reason(c.idx, x.Event.ID)
+				}
+				if !out(mocrelay.NewServerOKMsg(x.Event.ID, acc, "", msg)) {
+					return ctx.Err()
+				}
+			case *mocrelay.ClientCountMsg:
+				if !out(mocrelay.NewServerCountMsg(x.SubscriptionID, uint64(len(c.stored)), nil)) {
+					return ctx.Err()
+				}
+			}
+		}
+	}
+}
+
+// TestMergeReissueAfterEOSE: a client that re-issues a subscription id the moment it has
+// received its merged EOSE (legal: the id is free again), round after round, free-running.
+// Every round obeys the REQ rules: the stored events once each, newest first, then one EOSE.
+func TestMergeReissueAfterEOSE(t *testing.T) {
+	c08 := ev.For("C08").SetRule(c08Rule)
+	rapid.Check(t, func(t *rapid.T) {
+		n := rapid.IntRange(2, 4).Draw(t, "children")
+		rounds := rapid.IntRange(50, 300).Draw(t, "rounds")
+		k := rapid.IntRange(1, 5).Draw(t, "stored")
+		buffered := rapid.Bool().Draw(t, "client_channel_buffered")
+		authors := gen.Pubkeys(1)
+		var pool []*mocrelay.Event
+		for i := 0; i < k; i++ {
+			e := &mocrelay.Event{Pubkey: authors[0], Kind: 1, CreatedAt: int64(100 - i), Tags: []mocrelay.Tag{}, Content: fmt.Sprint("stored", i)}
+			gen.Seal(e)
+			pool = append(pool, e)
+		}
+		hs := make([]mocrelay.Handler, n)
+		for i := range hs {
+			hs[i] = &storeChild{idx: i, stored: pool}
+		}
+		desc := map[string]any{"mode": "free-running: REQ a, EOSE, REQ a again at once", "children": n, "rounds": rounds, "stored_per_child": k, "client_channel_buffered": buffered}
+		h := mocrelay.NewMergeHandler(hs...)
+		ctx, cancel := context.WithCancel(context.Background())
+		defer cancel()
+		recv := make(chan mocrelay.ClientMsg)
+		nbuf := 0
+		if buffered {
+			nbuf = 8
+		}
+		send := make(chan mocrelay.ServerMsg, nbuf)
+		go h.ServeNostr(ctx, send, recv)
+		req := &mocrelay.ClientReqMsg{SubscriptionID: "a", ReqFilters: []*mocrelay.ReqFilter{{}}}
+		for r := 0; r < rounds; r++ {
+			select {
+			case recv <- req:
+			case <-time.After(stepTimeout):
+				hx.Fail(t, ev.Failure{Property: "C08", Signature: "stalled", Clause: "the merged handler takes a REQ", Case: desc, Observed: fmt.Sprintf("round %d", r)})
+			}
+			var got []string
+			for {
+				var m mocrelay.ServerMsg
+				select {
+				case m = <-send:
+				case <-time.After(5 * time.Second):
+					hx.Fail(t, ev.Failure{Property: "C08", Signature: "merged-eose-missing", Clause: "the client receives one EOSE once every child has sent its own (a subscription id re-issued right after its EOSE)", Case: desc,
+						Observed: fmt.Sprintf("round %d: no EOSE after %d events", r, len(got))})
+				}
+				if em, is := m.(*mocrelay.ServerEventMsg); is {
+					got = append(got, em.Event.ID)
+					if len(got) > k {
+						hx.Fail(t, ev.Failure{Property: "C08", Signature: "pre-eose-duplicate", Clause: "before EOSE no event id appears twice (a subscription id re-issued right after its EOSE)", Case: desc,
+							Observed: fmt.Sprintf("round %d: %s", r, hx.JSON(gen.ShortAll(got)))})
+					}
+					continue
+				}
+				if _, is := m.(*mocrelay.ServerEOSEMsg); is {
+					break
+				}
+			}
+			want := make([]string, len(pool))
+			for i, e := range pool {
+				want[i] = e.ID
+			}
+			if hx.JSON(got) != hx.JSON(want) {
+				hx.Fail(t, ev.Failure{Property: "C08", Signature: "pre-eose-stream", Clause: "before EOSE the client receives the children's matching events once each, newest first", Case: desc,
+					Observed: fmt.Sprintf("round %d: %s", r, hx.JSON(gen.ShortAll(got))), Expected: hx.JSON(gen.ShortAll(want))})
+			}
+		}
+		c08.Label("mode:reissue-after-eose")
+		c08.Case(true, hx.JSON(desc), func() any { return desc })
+	})
+}
+
+// TestMergeConcurrentSessions: several sessions of ONE merged handler publish at the same
+// time. Each EVENT gets one OK with its own id; a rejection's text begins with the reason of
+// the first rejecting child for that very event (the reasons name child and event).
+func TestMergeConcurrentSessions(t *testing.T) {
+	c09 := ev.For("C09").SetRule(c09Rule)
+	rapid.Check(t, func(t *rapid.T) {
+		n := rapid.IntRange(2, 3).Draw(t, "children")
+		ns := rapid.IntRange(2, 8).Draw(t, "sessions")
+		per := rapid.IntRange(50, 400).Draw(t, "events_per_session")
+		rlen := rapid.SampledFrom([]int{10, 200, 4000}).Draw(t, "reason_length")
+		desc := map[string]any{"mode": "concurrent sessions of one merged handler", "children": n, "sessions": ns, "events_per_session": per, "reason_length": rlen}
+		reason := func(idx int, id string) string {
+			return fmt.Sprintf("child%d refuses %s %s", idx, id[:12], strings.Repeat(string(rune('a'+idx)), rlen))
+		}
+		// child i rejects ids whose first hex digit is below a threshold that depends on i
+		rejects := func(idx int, id string) bool { return int(id[idx%8]%4) == 0 }
+		hs := make([]mocrelay.Handler, n)
+		for i := range hs {
+			i := i
+			hs[i] = &storeChild{idx: i, reject: func(id string) bool { return rejects(i, id) }, reason: reason}
+		}
+		h := mocrelay.NewMergeHandler(hs...)
+		authors := gen.Pubkeys(2)
+		fails := make([]string, ns)
+		var wg sync.WaitGroup
+		for s := 0; s < ns; s++ {
+			wg.Add(1)
+			go func(s int) {
+				defer wg.Done()
+				ctx, cancel := context.WithCancel(context.Background())
+				defer cancel()
+				recv := make(chan mocrelay.ClientMsg)
+				send := make(chan mocrelay.ServerMsg)
+				go h.ServeNostr(ctx, send, recv)
+				for j := 0; j < per; j++ {
+					e := &mocrelay.Event{Pubkey: authors[s%2], Kind: 1, CreatedAt: int64(j), Tags: []mocrelay.Tag{}, Content: fmt.Sprint("s", s, "e", j)}
+					gen.Seal(e)
+					select {
+					case recv <- &mocrelay.ClientEventMsg{Event: e}:
+					case <-time.After(stepTimeout):
+						fails[s] = "EVENT not taken"
+						return
+					}
+					var m mocrelay.ServerMsg
+					select {
+					case m = <-send:
+					case <-time.After(stepTimeout):
+						fails[s] = fmt.Sprintf("no OK for event %d", j)
+						return
+					}
+					o, is := m.(*mocrelay.ServerOKMsg)
+					if !is || o.EventID != e.ID {
+						fails[s] = fmt.Sprintf("event %d answered by %s", j, hx.JSON(briefServer(m)))
+						return
+					}
+					first := -1
+					for c := 0; c < n; c++ {
+						if rejects(c, e.ID) {
+							first = c
+							break
+						}
+					}
+					if o.Accepted != (first < 0) {
+						fails[s] = fmt.Sprintf("event %d: accepted=%v, first rejecting child %d", j, o.Accepted, first)
+						return
+					}
+					if first >= 0 {
+						ok := false
+						for c := 0; c < n; c++ { // lowest index or earliest in time
+							if rejects(c, e.ID) && strings.HasPrefix(o.Message(), reason(c, e.ID)) {
+								ok = true
+							}
+						}
+						if !ok {
+							msg := o.Message()
+							if len(msg) > 120 {
+								msg = msg[:120] + "..."
+							}
+							fails[s] = fmt.Sprintf("event %d (%s): rejection text %q does not begin with a rejecting child's reason for it", j, e.ID[:12], msg)
+							return
+						}
+					}
+				}
+			}(s)
+		}
+		wg.Wait()
+		for s, f := range fails {
+			if f != "" {
+				hx.Fail(t, ev.Failure{Property: "C09", Signature: "ok-concurrent-sessions", Clause: "every EVENT is answered by exactly one OK carrying its id, accepting iff every child accepted, a rejection's text beginning with the first rejecting child's reason (several sessions of one merged handler at once)",
+					Case: desc, Observed: fmt.Sprintf("session %d: %s", s, f)})
+			}
+		}
+		c09.Label("mode:concurrent-sessions")
+		c09.Case(true, hx.JSON(desc), func() any { return desc })
+	})
 }
